@@ -19,7 +19,50 @@ LOCKS = ("SimLock", "SimRLock")
 CHECK_STEPCAP = True
 
 
+def gen_timeout_cancel(rng):
+    """Focus family: an inner layer that cancels on its own thread (a firing timeout) below one to
+    three further layers, a saturated single worker so that the cancel succeeds, and client
+    cancel() / add_done_callback calls placed at the instant the timeout fires."""
+    tmo = rng.choice([0.05, 0.1, 0.15])
+    above = []
+    for _ in range(rng.choice([1, 2, 2, 3])):
+        t = rng.choice(["map", "map", "flat_map", "throttle", "timeout", "cos", "retry"])
+        L = {"t": t}
+        if t == "map":
+            L["fn"] = rng.choice([None, "wrap"])
+            L["err"] = None
+        elif t == "flat_map":
+            L["fn"] = rng.choice([None, "ret"])
+            L["err"] = None
+        elif t == "throttle":
+            L["count"] = rng.choice([2, 3])
+            L["block"] = False
+        elif t == "timeout":
+            L["timeout"] = 5000.0
+        elif t == "retry":
+            L.update({"max_attempts": 1, "sleep": 0, "exponent": 1, "max_sleep": 1})
+        above.append(L)
+    layers = [{"t": "timeout", "timeout": tmo}] + above
+    subs = {}
+    nsub = rng.choice([2, 3])
+    for s in range(nsub):
+        subs[str(s)] = {"dur": 0.2, "nest": False, "fail": 0}
+    first = [["submit", s] for s in range(nsub)]
+    tail = [["sleep", tmo]]
+    for _ in range(rng.choice([1, 2])):
+        tail.append([rng.choice(["cancel", "cancel", "cb"]), rng.randrange(1, nsub)])
+        if tail[-1][0] == "cb":
+            tail[-1].append(False)
+    clients = [first + tail]
+    if rng.random() < 0.5:
+        clients.append([["sleep", tmo], ["cancel", rng.randrange(1, nsub)]])
+    return {"sim": runner.draw_sim_cfg(rng, est=400), "base": {"kind": "pool", "n": 1}, "layers": layers,
+            "subs": subs, "clients": clients, "settle": 15.0, "focus": "timeout-cancel"}
+
+
 def gen(rng, tier):
+    if rng.random() < 0.25:
+        return gen_timeout_cancel(rng)
     depth = rng.choice([0, 1, 1, 2, 2, 3])
     base = {"kind": rng.choice(["sync", "pool", "pool"]), "n": rng.choice([1, 2])}
     layers = gen_layers(rng, depth, nsubs=6, faults=False)
@@ -40,8 +83,12 @@ def gen(rng, tier):
     for c in range(nclients):
         ops = []
         mine = []
+        firing = [L["timeout"] for L in layers if L["t"] == "timeout" and L["timeout"] < 100]
         for _ in range(rng.choice([1, 2, 3, 4])):
             k = rng.choice(["submit", "submit", "cancel", "cb", "result"])
+            if mine and rng.random() < 0.15:
+                # let virtual time pass: to the instant a timeout fires, or a callable ends
+                ops.append(["sleep", rng.choice(firing + [0.01, 0.2])])
             if k == "submit" or not mine:
                 subs[str(sid)] = {"dur": rng.choice([0, 0.01, 0.2]),
                                   "nest": nest_ok and rng.random() < 0.4,
@@ -112,6 +159,9 @@ def run(spec, env):
                         env.rec("op", "submit", s)
                     except RuntimeError:
                         env.rec("op", "submit-refused", s)
+                    continue
+                if k == "sleep":
+                    env.sleep(op[1])
                     continue
                 if k == "shutdown":
                     env.rec("op", "shutdown", op[1])
